@@ -56,6 +56,19 @@ def make_obs(ctx):
         obs.append(Ob('rt:time:%s' % f.replace(' ', '_'), 'C09_time.c', 'h_rt_time', {'FMT': q(f), 'KEEP': keep},
                       units=['lib/token.c'], unwind=len(f) + 6, group='rt:time', timeout=300,
                       bounds={'times': 'every h:m:s of the day', 'format': f}, kfwhole='rt_time_' + core.treekey(f)))
+    # epoch seconds (%s): the text layer (decimal digits) stalls SAT, the value layer is decided here with C11's
+    # harness: the civil date-time a %s field denotes and the epoch a civil date-time prints as are inverse, every
+    # second of the window, negative epochs included (added after a seeded change in __sexy_to_daisy that the
+    # text-level round trips could not see)
+    from .C11 import UNITS as TUNITS, H as TH
+    base = 134775
+    ew = [(base - 3, base + 3), (base - 25000, base - 24995)]
+    if ctx.tier == 'thorough':
+        ew += [(a, a + 6) for a in range(1, 910000, 49999)]
+    for (a, e) in ew:
+        obs.append(Ob('rt:epoch-value:d%d-%d' % (a, e), TH, 'h_epoch', dict(DLO=a, DHI=e, TGT='DT_YMD'), timeout=400,
+                      units=TUNITS, group='rt:epoch-value', bounds={'epochs': 'every Unix second of day numbers %d..%d' % (a, e)},
+                      remove_bodies=core.prune_cals(['daisy', 'ymd'])))
     return obs
 
 
@@ -64,6 +77,6 @@ def run(tier, seed):
         'C09', tier, seed, make_obs,
         level_note=('formats enumerated (the program), days symbolic per year window: one query decides strp(strf(v)) == v '
                     'and full consumption for every day of the window'),
-        assumptions=['built-in English names (shipped locales not yet covered)', 'date formats and time-of-day formats; date-time formats, %s, %Z, nanoseconds, 24:00:00 and leap seconds not yet covered',
+        assumptions=['built-in English names (shipped locales not yet covered)', 'date formats and time-of-day formats; date-time formats, the decimal text of %s (its value layer is covered), %Z, nanoseconds, 24:00:00 and leap seconds not yet covered',
                      'formats listed in vf/props/C09.py; longer or other formats outside'],
         stubs=[])
